@@ -298,6 +298,31 @@ def check_upd(ck, prog):
           "stream_encoder_update(): block_encoder_init() is tried with the new chain while block_encoder_is_initialized "
           "may still be true: if the new chain is refused, the next lzma_code() uses a Block encoder whose filter chain "
           "was already destroyed (NULL function pointer)", key="UPD:stream-flag")
+    # threaded encoder: the chain accepted by lzma_filters_update() reaches the next Block because get_thread() hands the
+    # worker the cached copy on EVERY hand-out (a recycled worker would otherwise encode with its previous chain and
+    # write that chain into the Block Header)
+    g = prog.fn("get_thread", "stream_encoder_mt.c")
+    ck.saw_function(g)
+    sig = [(b, i) for b, i, e in g.iter_elems() for c in ex.calls(e, into_refs=False)
+           if c.get("fn") == "mythread_cond_signal" and c["args"] and "thr->cond" in ex.show(c["args"][0])]
+    if not sig:
+        raise AnalysisBroken("get_thread: the wake-up of the worker (mythread_cond_signal(&coder->thr->cond)) not found")
+    sb, si = sig[0]
+
+    def via_copy(bb, ii, ee):
+        if bb.id == sb.id and ii >= si:
+            return False
+        return any(c.get("fn") in ("memcpy", "__builtin_memcpy", "__builtin___memcpy_chk") and len(c["args"]) >= 2 and
+                   ex.show(c["args"][0]).endswith("thr->filters") and "filters_cache" in ex.show(c["args"][1])
+                   for c in ex.calls(ee, into_refs=False))
+    okc = any(via_copy(sb, j, sb.elems[j]) for j in range(0, si) if sb.elems[j] is not None)
+    if not okc:
+        okc, _p = cfg.must_pass(g, [g.entry], [sb.id], via_copy)
+    ck.ob("C12-UPD", "mt-thread-gets-chain", okc, common.where(g, sb.elems[si]),
+          "get_thread: every worker that is woken up has been given coder->filters_cache" if okc else
+          "get_thread(): a worker can be woken up without `memcpy(coder->thr->filters, coder->filters_cache, ...)`: a "
+          "recycled worker encodes the next Block (and writes its Block Header) with the filter chain of its previous "
+          "Block, so a chain accepted by lzma_filters_update() is silently not used", key="UPD:mt-thread-gets-chain")
     # the else branch: PROG_ERROR
     pe = any(ex.show(n) == "ret = LZMA_PROG_ERROR" for b, i, e in f.iter_elems()
              for (l, r, op, n) in ex.writes(e))
